@@ -50,12 +50,14 @@ def families(n):
             out.append(("fixed_size_huge_chunk_%s_%d" % (kind, dur), isogen.render([isogen.ftyp(), isogen.Box("moov", [isogen.mvhd(1000, dur), isogen.trak_of(tr)]), isogen.Box("mdat", [isogen.Raw(b"x" * min(n, 4096))])]).data))
     # k table boxes that DECLARE 12 bytes (too short for their own count field) with a count covering the rest of the file: a count guard derived from
     # the declared size rejects them; one that lets them through re-reads the rest of the file k times (quadratic)
-    for typ, where in ((b"elst", "edts"), (b"stts", "stbl"), (b"stsc", "stbl"), (b"stco", "stbl"), (b"stss", "stbl"), (b"ctts", "stbl")):
+    # (declared 12: too short for the count field itself; declared 16 / 20: exactly the fixed fields, no room for any entry)
+    for typ, where, declared in ((b"elst", "edts", 12), (b"stts", "stbl", 12), (b"stsc", "stbl", 12), (b"stco", "stbl", 12), (b"stss", "stbl", 12), (b"ctts", "stbl", 12),
+                                 (b"stsz", "stbl", 20), (b"stts", "stbl", 16), (b"co64", "stbl", 16), (b"elst", "edts", 16)):
         kk = max(2, n // 24)
         def shorts(counts):
             bs = []
             for c in counts:
-                t = B(typ.decode(), [isogen.F(4, 0), isogen.F(4, c)], size_override=12)
+                t = B(typ.decode(), [isogen.F(4, 0)] + ([isogen.F(4, 0)] if typ == b"stsz" else []) + [isogen.F(4, c)], size_override=declared)
                 bs.append(B("edts", [t]) if where == "edts" else t)
             return bs
         def movie(counts):
@@ -68,10 +70,20 @@ def families(n):
             stbl.items = list(stbl.items) + shorts(counts)
             return isogen.render(nodes)
         r0 = movie([0] * kk)
-        pos = [off for off, size, hdr, path in r0.boxes if path.endswith("/" + typ.decode()) and size == 16]
+        pos = [off for off, size, hdr, path in r0.boxes if path.endswith("/" + typ.decode()) and size == (20 if typ == b"stsz" else 16)]
         total = len(r0.data)
         counts = [max(1, (total - (o + 16)) // 12 - 1) for o in pos][-kk:]
-        out.append(("short_%s_x%d" % (typ.decode(), kk), bytes(movie(counts).data)))
+        out.append(("short%d_%s_x%d" % (declared, typ.decode(), kk), bytes(movie(counts).data)))
+    # k meta boxes WITHOUT a handler box, followed by a stray hdlr sibling: a search for the handler that runs past the end of its meta box
+    # finds that one — k times
+    # (32-byte meta boxes and a 32-byte hdlr: the stray handler box is not larger than the boxes whose overlong scan meets it; k = n/8 boxes, the budget is
+    # computed from the actual file length)
+    kk = max(2, n // 8)
+    stray = isogen.full("hdlr", 0, 0, [isogen.F(4, 0), isogen.Raw(b"mdir"), isogen.Raw(b"\0" * 12)])
+    for fullbox in (True, False):
+        metas = [isogen.meta([B("free", [isogen.Raw(b"\0" * (12 if fullbox else 16))])], fullbox=fullbox, with_hdlr=False) for _ in range(kk)]
+        out.append(("meta_nohdlr_x%d_%d" % (kk, fullbox), bytes(isogen.build_movie([{"id": 1, "kind": "avc", "ts": 1000, "sizes": [1], "chunks": [1], "deltas": [1], "cts": None, "sync": None, "co64": False}],
+                                                                                     udta=isogen.udta(metas + [stray]))[0].data)))
     # 64-bit headers with sizes near the file length
     out.append(("large_hdr", isogen.render([isogen.ftyp()] + [B("free", [isogen.Raw(b"\0" * 8)], large=True)] * (k // 3)).data))
     # k sample entries whose esds descriptors claim to extend over z bytes of zero padding behind the moov box
